@@ -47,6 +47,9 @@ def _judge(ctx, mods, w, st, results, deadlock, extra_events=(), judge=True, ign
         if o is None:
             ctx.fail(tag + 'never finished')
             continue
+        if op.kw.get('expect_exc'):
+            ctx.check((not o.ok) and type(o.exc).__name__ == op.kw['expect_exc'], tag + 'raises %s as it does alone' % op.kw['expect_exc'], detail=repr(o))
+            continue
         if op.kw.get('silent'):
             ctx.check(not o.ok, tag + 'an open that the device never answers fails', detail=repr(o))
             continue
@@ -60,6 +63,17 @@ def _judge(ctx, mods, w, st, results, deadlock, extra_events=(), judge=True, ign
                 ctx.fail(tag + 'raised %s although the device served every stream' % o.kind(), detail=repr(o.exc))
             continue
         op.check(ctx, w, st, o, exp, tag)
+
+
+def _std(ctx, shape, pick):
+    packetize = None
+    if shape.get('wrte_size'):
+        n = shape['wrte_size']
+        packetize = lambda b, kind: [b[i:i + n] for i in range(0, len(b), n)] if kind in ('LIST', 'RECV', 'STAT') else [b]
+    fail = None
+    if shape.get('fail'):
+        fail = {'at': tuple(shape['fail']), 'reason': ctx.bytes('reason', 2)}
+    return Std(ctx, maxdata=4096, pick=pick, sym_rid=shape.get('sym_rid', False), packetize=packetize, fail=fail)
 
 
 def _short_policy(ctx, shape):
@@ -107,7 +121,7 @@ def _after_and_ids(ctx, w, st, shape):
 
 def h_threads(ctx, mods, shape):
     pick = (lambda ready: ctx.choose(len(ready), 'device: which ready stream next'))
-    st = Std(ctx, maxdata=4096, pick=pick, sym_rid=shape.get('sym_rid', False))
+    st = _std(ctx, shape, pick)
     sched.SchedLock.sched = None
     w = World(ctx, mods, st.dev, impl='sync', default_timeout=1, budget=600, short_write=_short_policy(ctx, shape))
     io = w.dev._io_manager
@@ -150,7 +164,7 @@ def h_threads(ctx, mods, shape):
 
 def h_async(ctx, mods, shape):
     pick = (lambda ready: ctx.choose(len(ready), 'device: which ready stream next'))
-    st = Std(ctx, maxdata=4096, pick=pick, sym_rid=shape.get('sym_rid', False))
+    st = _std(ctx, shape, pick)
     w = World(ctx, mods, st.dev, impl='async', default_timeout=1, budget=600, short_write=_short_policy(ctx, shape))
     ctrl = sched.AsyncController(ctx, w.wire)
     tr = sched.make_async_transport(mods, ctrl)
@@ -243,6 +257,9 @@ def shapes(tier, seed):
             out.append({'h': 'threads', 'ops': [small[a], small[b]], 'preempt': 1, 'yields': True, 'max_paths': 60000, 'xpart': [i, 2, 8]})
         out.append({'h': 'async', 'ops': [small[a], small[b]], 'max_paths': 60000})
     out.append({'h': 'threads', 'ops': [small['shell'], small['shell']], 'preempt': 1, 'yields': True, 'sym_rid': True, 'max_paths': 60000})
+    # a multi-packet listing / a rejected push next to a streaming_shell
+    out.append({'h': 'async', 'ops': [['list', {'names': [1, 1, 1]}], small['sshell']], 'wrte_size': 24, 'max_paths': 200000})
+    out.append({'h': 'async', 'ops': [['push', {'size': 5000, 'expect_exc': 'PushFailedError'}], small['sshell']], 'fail': ['done'], 'max_paths': 200000})
     out.append({'h': 'async', 'ops': [small['shell'], small['shell']], 'sym_rid': True, 'max_paths': 60000})
     for impl in ('sync', 'async'):
         out.append({'h': 'interleave', 'impl': impl, 'gens': [[1, 1], [1]], 'pick': True})
